@@ -219,6 +219,21 @@ fn accessors_c3() { check_accessors::<3>(); }
 #[kani::unwind(12)]
 fn selective_ack_c2() { check_selective_ack::<2>(); }
 
+//@ harness id=ooq.k.selective_ack.c3.shifted kind=bounded props=C04 tier=quick timeout=1200 bound="OOQ_CAP==3 with exactly one consumed-but-unflushed in-order packet parked (filled_front == 1); payload<=2B" text="selective_ack() while in-order data is still parked in the reassembly queue: the mask is relative to the FIRST HOLE (bit 0 = sequence number ack_nr + 2), not to the start of the queue"
+#[kani::proof]
+#[kani::unwind(12)]
+fn selective_ack_c3_shifted() {
+    let q = any_ooq::<3>();
+    kani::assume(q.filled_front == 1);
+    let held = slot_of(&q.data[2]).kind != 0;
+    let s = q.selective_ack();
+    assert!(s.is_some() == held);
+    if let Some(s) = s {
+        let raw = s.as_bytes();
+        assert!(s.len() == 64 && raw[0] == 1 && raw[1] == 0 && raw[2] == 0 && raw[3] == 0 && raw[4] == 0 && raw[5] == 0 && raw[6] == 0 && raw[7] == 0);
+    }
+}
+
 //@ harness id=ooq.k.selective_ack.c3 kind=bounded props=C04 tier=thorough timeout=2400 bound="OOQ_CAP==3; payload<=2B" text="selective_ack(): None iff nothing is held beyond the first hole; otherwise a 64-bit mask whose bit k is set exactly when the packet at slot filled_front+1+k (sequence number ack_nr+2+k) is held; every other bit clear"
 #[kani::proof]
 #[kani::unwind(12)]
